@@ -35,13 +35,13 @@ PROPS = {
                 release=False, leak_free=True),
     "C02": dict(families=["range", "random"], keys=["out", "ret", "len", "snap"], cfgs=any_cfg,
                 release=True, leak_free=True),
-    "C03": dict(families=["elem", "range", "clone", "lazyfuse", "liar", "random"], keys=["ev_user", "snap"], cfgs=any_cfg,
+    "C03": dict(families=["elem", "range", "clone", "lazyfuse", "dropfuse", "liar", "random"], keys=["ev_user", "snap"], cfgs=any_cfg,
                 release=False, leak_free=True),
     "C04": dict(families=["types"], keys=["out", "ret", "len", "snap", "ev_user"], cfgs=any_cfg, release=False, leak_free=False),
     "C13": dict(families=["handles", "elem", "iter_nth"], keys=["out", "ret", "len", "snap", "ev_user"], cfgs=any_cfg, release=False, leak_free=True),
     "C17": dict(families=["parts"], keys=["out", "ret", "len", "cap", "snap", "ev_user", "ev_alloc"],
                 cfgs=lambda c: c["be"] in ("heap", "empty"), release=False, leak_free=True),
-    "C05": dict(families=["elem", "range", "clone", "clonefuse", "capacity", "random"], keys=["out", "ev_backend", "snap", "raw"],
+    "C05": dict(families=["elem", "range", "clone", "clonefuse", "dropfuse", "capacity", "random"], keys=["out", "ev_backend", "snap", "raw"],
                 cfgs=lambda c: be_class(c["be"]) in ("reloc", "heap"), release=False, leak_free=True),
     "C06": dict(families=["fuse", "liar"], keys=["out", "ret", "len", "snap", "ev_user"],
                 cfgs=lambda c: (be_class(c["be"]) in ("heap", "reloc") and c["sz"] in (0, 3, 8, 24, 160)) or (c["be"] in ("stack:72", "stackn:4:96", "stack:0") and c["sz"] == 24),
@@ -131,7 +131,7 @@ def compare_case(pid, spec, cid, cfg, steps, family, mlines, ilines):
         may_leak = any(l.get("out") == "2" and op_word(st) in ("splice", "drain", "clone") for st, l in zip(steps, isteps))
         if spec.get("leak_free"):
             # a step with an armed fuse / lying iterator / forgotten handle may leak (and only leak)
-            may_leak = may_leak or family in ("fuse", "liar", "forget", "lazyfuse", "clonefuse")
+            may_leak = may_leak or family in ("fuse", "liar", "forget", "lazyfuse", "clonefuse", "dropfuse")
             if e.get("live", "-") not in ("-", "0") and not may_leak:
                 return dict(step=n, key="leak", expected="live=0", observed="live=" + e["live"])
             if e.get("blocks", "0") != "0":
